@@ -6,6 +6,7 @@ mod c02;
 mod c03;
 mod c04;
 mod c05;
+mod c06;
 mod c07;
 mod c11;
 mod c11walk;
@@ -13,6 +14,8 @@ mod c12;
 mod c13;
 mod c14;
 mod c15;
+mod c16;
+mod c17;
 mod c18;
 mod compare;
 mod conc;
@@ -76,6 +79,18 @@ fn main() {
         "C05" => {
             report = Report::new("C05", "scenarios (history with several versions, garbage from deletes/interrupted runs); EVERY subset of (up to 5) existing versions x {dry-run, real}; for selected (thorough: all) real runs every crash point and every single failing read/list operation; non-trivial = something to delete or collect, or a crash/fault; distinct by scenario seed, subset and plan");
             c05::run(&tier, seed, &mut report);
+        }
+        "C06" => {
+            report = Report::new("C06", "archives with one or two complete versions plus one garbage block whose content reappears in the new source; one backup (A) and one gc / delete of the oldest version (B) under schedules 'A runs i ops, B runs j, A runs k, B runs l, then A to the end, then B' covering the window around gc's check() and the backup's mkdir exhaustively, plus random schedules; non-trivial = both actors move inside the schedule; distinct by scenario seed and schedule");
+            c06::run(&tier, seed, &mut report);
+        }
+        "C16" => {
+            report = Report::new("C16", "sandboxes (destination empty | empty set-group-ID | absent | pre-populated, with sentinels beside it) x generated source trees with symlinks aimed at the sentinels (upward, absolute, '..', '.', other entries, dangling) x histories (one version; directory replaced by an outward symlink with the second backup complete or interrupted before its tail; the D11 shape) x restore selections (version, subtree, exclusions, overwrite); non-trivial = sandbox with more than 6 nodes; distinct by canonical case text");
+            c16::run(&tier, seed, &mut report);
+        }
+        "C17" => {
+            report = Report::new("C17", "generated histories (as C02) each replayed into 4 (thorough 6) fresh archives: plain; every list_dir result shuffled by the interceptor; source created in another order under multi-thread runtimes with 1/4/16 workers; archives compared byte for byte after every step (start_time/end_time masked) and with the model; non-trivial = history with more than one backup; distinct by seed");
+            c17::run(&tier, seed, &mut report);
         }
         "C07" => {
             report = Report::new("C07", "a direct CreateNew test on the transport; histories (as C02, incl. interrupted and resumed backups) with byte-for-byte snapshots of the archive before/after every step; and two backups of differing sources racing on one archive under schedules (A runs i ops, B runs j, A runs k, for i,j<=10, plus random schedules); non-trivial = history with more than one backup / schedule in which both actors move; distinct by seed and schedule");
